@@ -313,6 +313,12 @@ let check_line (line : string) : unit =
       let model_order = List.map int_of_n (visits regs) in
       if order "setup" 'S' <> model_order then
         disagree "setup_order" 0 (tok_of_ints model_order) (tok_of_ints (order "setup" 'S'));
+      if get "setup2" <> "" then begin
+        if order "setup2" 'S' <> model_order then disagree "setup_order" 0 (tok_of_ints model_order) (tok_of_ints (order "setup2" 'S'));
+        if not (visit "setup2" 'S') then oracle "setup_visits" 0;
+        if get "setup2keeps" <> "1" || get "setup2ok" <> "1" then oracle "setup_keeps" 0;
+        if get "setup2recreates" <> "1" then oracle "setup_recreates" 0
+      end;
       if order "dispose" 'X' <> model_order then
         disagree "dispose_order" 0 (tok_of_ints model_order) (tok_of_ints (order "dispose" 'X'));
       if not (visit "setup" 'S') then oracle "setup_visits" 0;
